@@ -39,10 +39,12 @@ SnapMatch(S, js) ==
   /\ \A a \in Apps : pj.apps[a] = js.apps[a]
   /\ \A i \in 1..Len(pj.tb) : js.tb[i] = -1 \/ js.tb[i] = pj.tb[i]
 
+\* trace steps recorded at the free grain (field free = TRUE) hold one environment action or one thread step alone
+IsFree(st) == "free" \in DOMAIN st /\ st.free
 RECURSIVE Run(_, _, _)
 Run(S, steps, i) ==
   IF i > Len(steps) THEN [ok |-> TRUE, at |-> 0]
-  ELSE LET S1 == Quiesce(Apply([S EXCEPT !.out = <<>>], steps[i].act))
+  ELSE LET S1 == IF IsFree(steps[i]) THEN FreeStepOf(S, steps[i].act) ELSE Quiesce(Apply([S EXCEPT !.out = <<>>], steps[i].act))
            om == OutMatch(S1.out, steps[i].out)
            sm == SnapMatch(S1, steps[i].snap)
        IN IF om /\ sm THEN Run(S1, steps, i + 1)
